@@ -26,6 +26,10 @@ type T5 struct{ Tok int64 }
 // with the value group of *T0, whose parameters have the same Go type.
 type L0 = []*T0
 
+// TX is never used by generated signatures: functions registered from inside
+// user code (Fn.Side) provide / decorate it.
+type TX struct{ Tok int64 }
+
 // Non-pointer value types (zero value is S0{0}).
 type S0 struct{ Tok int64 }
 type S1 struct{ Tok int64 }
